@@ -36,11 +36,34 @@ func FuzzFormat(f *testing.F) {
 		if !s.valid() {
 			return
 		}
+		// the literal text of the format is printed as it is: a format that shares three bytes in a row with a
+		// secret would be reported as a leak of that secret
+		if sharesTrigram(format, s.S1) || sharesTrigram(format, s.S2) {
+			return
+		}
 		cFuzz.Eval(true, format+"|"+string(secret)+"|"+sh.name)
 		if v := evalScript(cFuzz, &s, nil); v != nil {
 			t.Fatalf("%v", v.f)
 		}
 	})
+}
+
+func sharesTrigram(format string, secrets [][]byte) bool {
+	if len(format) < 3 {
+		return false
+	}
+	grams := map[string]bool{}
+	for i := 0; i+3 <= len(format); i++ {
+		grams[format[i:i+3]] = true
+	}
+	for _, sec := range secrets {
+		for i := 0; i+3 <= len(sec); i++ {
+			if grams[string(sec[i:i+3])] {
+				return true
+			}
+		}
+	}
+	return false
 }
 
 // hugeNumber: a width or precision of five or more digits makes every rendering megabytes long; the target then
